@@ -446,6 +446,58 @@ def run(tier="quick", seed=0):
                                 % (why, clause, _ranges(cut)),
                          "inputs": dict(inputs, network="plain, recv(n) truncating like a UDP socket")})
 
+    # first contacts: what a fresh controller learns (or fails to learn) in its very first exchange must not decide the size of
+    # every later command.  (1) the first command of its life is lost / refused for all its tries, the caller carries on with
+    # the same object against a machine that is healthy from then on; (2) the first exchange is a version request to an
+    # application core whose run-time advertises a larger buffer than the monitor's.
+    first = 0
+    for B in (4, 16, 128, 256):
+        for fault in (sim.REQ_LOST, sim.REP_LOST, sim.RETRY82):
+            for kind in ("read", "write", "sver"):
+                with Session(ctx, B, 1, lambda i, nth, f=fault: ((f if i < N_TRIES else sim.OK), sim.LAT)) as ses:
+                    mc, model, S_ = ses.mc, ses.model, ctx["S"]
+                    addr, L = BASES[1] + 1, 3 * B + 1
+                    data = pattern(B + 11, L)
+                    inp = {"address": addr, "length": L, "chip": [1, 0], "core": 1,
+                           "history": "every transmission of the controller's first command: %s; afterwards ok" % (fault,), "first_call": kind}
+                    try:
+                        if kind == "read":
+                            mc.read(addr, 2, 1, 0, 1)
+                        elif kind == "write":
+                            mc.write(addr, b"\0\0", 1, 0, 1)
+                        else:
+                            mc.get_software_version(1, 0, 0)
+                    except (S_.TimeoutError, S_.SCPError):
+                        pass
+                    except sim.Abort:
+                        ses.bad("no_termination", "first call still running after %d select calls" % ses.net.steps, inp)
+                        ses.dead = True
+                    ses.model.pages = ses.machine.memory.copy().pages
+                    ses.op(dict(inp, call="write"), lambda: mc.write(addr, data, 1, 0, 1), writes=[(1, 0, 1, addr, data)])
+                    ses.op(dict(inp, call="read"), lambda: mc.read(addr - 1, L + 2, 1, 0, 1), want=model.peek(1, 0, 1, addr - 1, L + 2))
+                    ev += ses.ops
+                    first += ses.ops
+                    distinct_n += ses.nontrivial
+                    harvest(ses, "first_command_fails")
+        for app_B in (2 * B, 512, max(1, B // 2)):
+            with Session(ctx, B, 1, None) as ses:
+                ses.machine.app_buffer_size = app_B
+                mc, model = ses.mc, ses.model
+                addr, L = BASES[1] + 2, 3 * B + 2
+                data = pattern(B + 5, L)
+                inp = {"address": addr, "length": L, "chip": [1, 0], "core": 1,
+                       "history": "first exchange: get_software_version(1, 0, 3); core 3 advertises a buffer of %d, the monitor %d" % (app_B, B)}
+                info = ses.op(dict(inp, call="get_software_version"), lambda: mc.get_software_version(1, 0, 3))
+                if info is not None and info.buffer_size != app_B:
+                    ses.bad("bytes_returned", "get_software_version(1, 0, 3) reports buffer %r, the core said %d" % (info.buffer_size, app_B), inp)
+                ses.op(dict(inp, call="write"), lambda: mc.write(addr, data, 1, 0, 1), writes=[(1, 0, 1, addr, data)])
+                ses.op(dict(inp, call="read"), lambda: mc.read(addr - 1, L + 2, 1, 0, 1), want=model.peek(1, 0, 1, addr - 1, L + 2))
+                ev += ses.ops
+                first += ses.ops
+                distinct_n += ses.nontrivial
+                harvest(ses, "version_of_an_application_core_first")
+    per_mode["first_contacts"] = first
+
     return {"name": "c07_memory", "evaluations": ev, "distinct_nontrivial": distinct_n,
             "rule": "a case = one MachineController call (read, write, fill, read/write_across_link, read/write_struct_field over every sv field, "
                     "read/write_vcpu_struct_field over every vcpu field, string fields also with names that fill the field exactly, exceed it by one or by many bytes, or only exceed it once encoded: truncated to the field or refused before anything is sent, never written past it) in a session = (advertised buffer size, window size, network mode); the call runs "
@@ -455,7 +507,7 @@ def run(tier="quick", seed=0):
                     "transmission ok / request lost / reply lost / reply late 1.25 or 2.25 timeouts / duplicated / duplicated late / rc 0x82 / rc 0x8d, at most two "
                     "faulty transmissions per command, n_tries 4), plus exhaustive outcome schedules to depth %d%s on write+read+per-core-field sequences "
                     "(%d schedules).  Every call is distinct by (session, call, address, length or field, place) and is checked for the bytes returned and "
-                    "the whole memory of all chips; non-trivial = the machine executed at least one command for it (zero-length and refused calls excluded).  calls per mode: %r; commands executed by the simulated machine: %d" % (
+                    "the whole memory of all chips; non-trivial = the machine executed at least one command for it (zero-length and refused calls excluded).  First contacts: a fresh controller whose first command (read, write or version request) is lost / unanswered / busy for all its tries and which is then used against a healthy machine, and one whose first exchange is a version request to an application core advertising another buffer than the monitor (buffers 4, 16, 128, 256): transfers of 3 buffers + 1..2 bytes afterwards.  calls per mode: %r; commands executed by the simulated machine: %d" % (
                         depth, "" if quick else " (one sequence to depth %d)" % (depth + 1), sched_runs, per_mode, commands),
             "bound": "buffers %r x windows (1,2,4) x 3 network modes; addresses base+0..9, base in %s; lengths <= 3*buffer+3; %s" % (
                 list(buffers), [hex(b) for b in BASES], "quick: every second (address, length) pair / field in the reorder and faulty sessions" if quick else "all lengths for every buffer"),
